@@ -431,8 +431,9 @@ func (s *Server) Reset(reason string, timeoutMs int64) (*statejson.ResetDescript
 		}
 	}()
 
+	// the reset goroutine has already cleared the server (and released the reservation) before
+	// reporting done; releasing again here could drop the reservation of the next caller
 	done := <-s.ResetDoneChan
-	s.Release()
 
 	if done.ErrorType != "" {
 		return nil, errors.New(string(done.ErrorType))
